@@ -269,6 +269,9 @@ def generate(rng, opts):
             elif variant == "nosub":
                 op["submodules"] = False
             ops.append(op)
+        elif r < 0.49 and not pending:
+            # a long-lived loader is asked for a package it already holds: fresh module objects replace the old ones
+            ops.append({"op": "load", "pkg": rng.choice(order), "loader": rng.randrange(2)})
         elif r < 0.65:
             ops.append({"op": "resolve", "loader": rng.randrange(2), "implicit": rng.random() < 0.6, "external": rng.choice([True, False, None]), "max_iter": rng.choice([None, None, None, 1, 2])})
         elif r < (0.78 if cfg["links"] else 0.9):
